@@ -2,7 +2,7 @@
 
    Part A  an account's postings split by commodity (values, counts)
    Part B  ValuationSpec.held_commodities: duplicate-free, exactly the commodities booked on the account
-   Part C  the step count: sum of the per-cell allowances <= ValuationSpec.step_bound dl a 0 T
+   Part C  the step count: sum of the per-cell allowances <= ValuationSpec.step_bound dl a W T for a window [W, T] holding the journal
    Part D  within_bound (decimals) from the rational inequality
    Part E  the account total of the days handed to Transcode against ValuationSpec.market_value
    Part F  the same on the emitted ledger: Spec.BeancountMtmSpec.mtm_check finds nothing *)
@@ -337,6 +337,20 @@ Qed.
 Lemma last_date_upto dl : dates_upto dl (last_date dl).
 Proof. intros d Hd. rewrite <- directive_date_ddate. apply last_date_ge. exact Hd. Qed.
 
+Lemma first_date_le : forall dl m d, In d dl -> (fold_left (fun m d => Z.min m (directive_date d)) dl m <= directive_date d)%Z.
+Proof.
+  assert (Hm : forall dl m, (fold_left (fun m d => Z.min m (directive_date d)) dl m <= m)%Z).
+  { induction dl as [|x dl IH]; intros m; cbn [fold_left]; [lia|]. specialize (IH (Z.min m (directive_date x))). lia. }
+  induction dl as [|x dl IH]; intros m d Hin; [destruct Hin|]. cbn [fold_left]. destruct Hin as [->|Hin].
+  - specialize (Hm dl (Z.min m (directive_date d))). lia.
+  - apply IH. exact Hin.
+Qed.
+
+Lemma journal_window dl : forall d, In d dl -> (first_date dl <= ddate d <= last_date dl)%Z.
+Proof.
+  intros d Hd. split; [rewrite <- directive_date_ddate; apply first_date_le; exact Hd|apply last_date_upto; exact Hd].
+Qed.
+
 (* the Q-inequality: for any date T on or after the last directive *)
 Theorem transcode_account_total_Q l v sds dl days a T e :
   parse_directives sds = MOk dl -> postings_syntactic dl -> dates_upto dl T ->
@@ -369,18 +383,16 @@ Qed.
 
 (* the statement of the clause on the days: decimals, ValuationSpec.step_bound *)
 Theorem transcode_account_total l v sds dl days a e :
-  parse_directives sds = MOk dl -> postings_syntactic dl -> dates_nonneg dl ->
+  parse_directives sds = MOk dl -> postings_syntactic dl ->
   transcode_days l v sds = COk days ->
   account_ok a = true -> is_AL a = true ->
   market_value dl v a (last_date dl) = Some e ->
-  within_bound (posted_total a (vposts days)) e (step_bound dl a 0 (last_date dl)) = true.
+  within_bound (posted_total a (vposts days)) e (step_bound dl a (first_date dl) (last_date dl)) = true.
 Proof.
-  intros Hl Hsyn Hnn H Ha HAL He. apply within_bound_intro. rewrite posted_total_value.
+  intros Hl Hsyn H Ha HAL He. apply within_bound_intro. rewrite posted_total_value.
   eapply Qle_trans; [exact (transcode_account_total_Q l v sds dl days a _ e Hl Hsyn (last_date_upto dl) H Ha HAL He)|].
   apply Qmult_le_compat_r; [|exact eps8_nonneg]. rewrite <- Zle_Qle.
-  assert (Hw : forall d, In d dl -> (0 <= ddate d <= last_date dl)%Z).
-  { intros d Hd. split; [rewrite <- directive_date_ddate; apply Hnn; exact Hd|apply last_date_upto; exact Hd]. }
-  pose proof (com_steps_bound dl v a 0 (last_date dl) Hw). lia.
+  pose proof (com_steps_bound dl v a (first_date dl) (last_date dl) (journal_window dl)). lia.
 Qed.
 
 (* ------------------------------------------------------------ Part F: on the emitted ledger *)
@@ -456,18 +468,16 @@ Qed.
 
 (* the clause of the executable verdict holds of the ledger the model emits *)
 Theorem transcode_mtm_check l v sds dl days :
-  parse_directives sds = MOk dl -> postings_syntactic dl -> dates_nonneg dl ->
+  parse_directives sds = MOk dl -> postings_syntactic dl ->
   transcode_days l v sds = COk days ->
   mtm_check dl v (erase_entries v (transcode_entries days [])) = [].
 Proof.
-  intros Hl Hsyn Hnn H. unfold mtm_check. apply flat_map_nil. intros a Ha.
+  intros Hl Hsyn H. unfold mtm_check. apply flat_map_nil. intros a Ha.
   destruct (al_accounts_in dl a Ha) as (HAL & d & p & Hin & <-).
   pose proof (Hsyn d p Hin) as Hok.
   destruct (market_value dl v (p_acc p) (last_date dl)) as [e|] eqn:He; [|reflexivity].
   rewrite within_bound_intro; [reflexivity|]. rewrite ledger_total_days.
   eapply Qle_trans; [exact (transcode_account_total_Q l v sds dl days _ _ e Hl Hsyn (last_date_upto dl) H Hok HAL He)|].
   apply Qmult_le_compat_r; [|exact eps8_nonneg]. rewrite <- Zle_Qle.
-  assert (Hw : forall d, In d dl -> (0 <= ddate d <= last_date dl)%Z).
-  { intros d0 Hd. split; [rewrite <- directive_date_ddate; apply Hnn; exact Hd|apply last_date_upto; exact Hd]. }
-  pose proof (com_steps_bound dl v (p_acc p) 0 (last_date dl) Hw). lia.
+  pose proof (com_steps_bound dl v (p_acc p) (first_date dl) (last_date dl) (journal_window dl)). lia.
 Qed.
